@@ -1,5 +1,5 @@
 from . import engprop, apiprops
-CFG = apiprops.cfg("C08", ["C08_sorted", "C08_terminates", "C08_step", "C08_fused_after_err", "C08_vm_sorted", "C08_vm_is_reference_iteration", "C08_from_pattern_string"],
+CFG = apiprops.cfg("C08", ["C08_sorted", "C08_terminates", "C08_step", "C08_fused_after_err", "C08_vm_sorted", "C08_vm_is_reference_iteration", "C08_from_pattern_string", "C08_find_iter_total_from_pattern_string"],
                    [apiprops.api_extra("C08"), apiprops.c08_reference])
 
 
